@@ -26,6 +26,9 @@ var solvers = []SolverCfg{
 }
 
 func (prog *Program) buildSMT(o *Obligation, axioms []*Term, wantModel bool) string {
+	if o.Raw != "" {
+		return "; obligation " + o.Name + "\n; " + strings.ReplaceAll(o.Desc, "\n", " ") + "\n" + o.Raw
+	}
 	c := newCollector()
 	all := append([]*Term{}, o.Assume...)
 	all = append(all, o.Goal)
